@@ -98,6 +98,17 @@ Theorem C17_pair_priority_no_ties : forall ctl l r l' r',
 Proof. exact pair_priority_no_ties. Qed.
 Print Assumptions C17_pair_priority_no_ties.
 
+(* both agents sort any two distinct pairs the same way, and strictly *)
+Theorem C17_pair_order_strict_and_agreed : forall l1 r1 l2 r2,
+  0 <= l1 < 2 ^ 31 -> 0 <= r1 < 2 ^ 31 -> 0 <= l2 < 2 ^ 31 -> 0 <= r2 < 2 ^ 31 ->
+  (l1, r1) <> (l2, r2) ->
+  (PairPriority false 0 true l1 r1 <? PairPriority false 0 true l2 r2) =
+    negb (PairPriority false 0 true l2 r2 <? PairPriority false 0 true l1 r1) /\
+  (PairPriority false 0 true l1 r1 <? PairPriority false 0 true l2 r2) =
+    (PairPriority false 0 false r1 l1 <? PairPriority false 0 false r2 l2).
+Proof. exact pair_order_strict_and_agreed. Qed.
+Print Assumptions C17_pair_order_strict_and_agreed.
+
 (* ... and the range is needed: as plain uint32 values (2^31, 0) and (1, 1) collide.  This is why
    C17_range (priority <= 2^31-1 for every configuration) matters for the pair order. *)
 Theorem C17_pair_priority_collision_outside_range :
